@@ -34,7 +34,8 @@ STORE = ['store',
          ['ent', gen.vent('Action', 'all'), ['parents'], ['attrs'], ['tags']]]
 
 VALUES = {
-    'p': [UA, UB, UC], 'r': [DOC, UA], 'f': [gen.vbool(True), gen.vbool(False)], 'n': [gen.vlong(1), gen.vlong(2)],
+    # (the zero uid is a legal request part in the Go API)
+    'p': [UA, UB, UC, gen.vent('', '')], 'r': [DOC, UA, gen.vent('', '')], 'f': [gen.vbool(True), gen.vbool(False)], 'n': [gen.vlong(1), gen.vlong(2)],
     'm': [gen.vlong(1), gen.vstr('s'), gen.vlong(gen.MAX64)], 'w': [UA, UB], 'g': [G, gen.vent('Group', 'h'), UA],
     's': [gen.vstr('10.0.0.1'), gen.vstr('1.5'), gen.vstr('not a literal'), gen.vlong(3)],
     'a': [ACT, gen.vent('Action', 'edit'), ACT],
